@@ -3,6 +3,18 @@ use crate::util::{guarded, hexf, Ctx};
 use coset::{iana, CborSerializable, CoseKeyBuilder};
 use passkey_types::ctap2::{make_credential, get_assertion, Aaguid, AttestedCredentialData, AuthenticatorData, Flags};
 
+const NAMED: [(&str, Flags); 6] = [("UP", Flags::UP), ("UV", Flags::UV), ("BE", Flags::BE), ("BS", Flags::BS), ("AT", Flags::AT), ("ED", Flags::ED)];
+/// flags by *name* (the property is about the named flags, not raw bits)
+fn names_of(f: Flags) -> String {
+    let v: Vec<&str> = NAMED.iter().filter(|(_, fl)| f.contains(*fl)).map(|(n, _)| *n).collect();
+    if v.is_empty() { "-".into() } else { v.join("+") }
+}
+fn flags_of(mask: u8) -> Flags {
+    let mut f = Flags::empty();
+    for (i, (_, fl)) in NAMED.iter().enumerate().take(4) { if mask & (1 << i) != 0 { f |= *fl; } }
+    f
+}
+
 fn dec_obs(v: &[u8]) -> String {
     match guarded(|| AuthenticatorData::from_slice(v)) {
         None => "panic".into(),
@@ -16,7 +28,7 @@ fn dec_obs(v: &[u8]) -> String {
                 None => "NONE".to_string(),
                 Some(v) => { let mut b = vec![]; ciborium::ser::into_writer(v, &mut b).unwrap(); hexf(&b) }
             };
-            format!("{}/{}/{}/{}/{}", hexf(a.rp_id_hash()), u8::from(a.flags), a.counter.unwrap_or(0), acd, ext)
+            format!("{}/{}:{}/{}/{}/{}", hexf(a.rp_id_hash()), u8::from(a.flags), names_of(a.flags), a.counter.unwrap_or(0), acd, ext)
         }
     }
 }
@@ -37,10 +49,10 @@ fn roundtrip(ctx: &mut Ctx, rp: &str, counter: Option<u32>, u: u8, acd: Option<(
     let key = acd.as_ref().map(|_| CoseKeyBuilder::new_ec2_pub_key(iana::EllipticCurve::P_256, ctx.rng.bytes(32), ctx.rng.bytes(32)).algorithm(iana::Algorithm::ES256).build());
     let key_bytes = key.clone().map(|k| k.to_vec().unwrap());
     let acd_s = match (&acd, &key_bytes) { (Some((ag, cid)), Some(kb)) => format!("{}:{}:{}", hexf(ag), hexf(cid), hexf(kb)), _ => "NONE".into() };
-    let op = format!("ad.rt {} {} {} {} {}", hexf(rp.as_bytes()), counter.map(|c| c.to_string()).unwrap_or("NONE".into()), u, acd_s, ext_bytes.as_ref().map(|b| hexf(b)).unwrap_or("NONE".into()));
+    let op = format!("ad.rt {} {} {} {} {}", hexf(rp.as_bytes()), counter.map(|c| c.to_string()).unwrap_or("NONE".into()), names_of(flags_of(u)), acd_s, ext_bytes.as_ref().map(|b| hexf(b)).unwrap_or("NONE".into()));
     let mut enc_out = None;
     let obs = guarded(|| {
-        let mut a = AuthenticatorData::new(rp, counter).set_flags(Flags::from_bits(u).unwrap());
+        let mut a = AuthenticatorData::new(rp, counter).set_flags(flags_of(u));
         if let (Some((ag, cid)), Some(k)) = (acd.clone(), key.clone()) {
             let mut g = [0u8; 16]; g.copy_from_slice(&ag);
             match AttestedCredentialData::new(Aaguid(g), cid, k) { Ok(c) => { a = a.set_attested_credential_data(c); } Err(_) => return ("iderr".to_string(), None) }
@@ -60,7 +72,12 @@ pub fn gen(ctx: &mut Ctx) {
     for b in 0..=255u8 {
         ctx.line(&format!("ad.flags {}", b), if Flags::from_bits(b).is_some() { "ok" } else { "none" });
     }
-    let user_flags: Vec<u8> = (0..16u8).map(|m| (m & 1) | ((m & 2) << 1) | ((m & 4) << 1) | ((m & 8) << 1)).collect(); // subsets of UP|UV|BE|BS
+    // every flag byte in a minimal 37-byte input: acceptance, must-reject clauses, decoded flag names
+    for b in 0..=255u8 {
+        let mut v = vec![0x11u8; 32]; v.push(b); v.extend([0, 0, 0, 7]);
+        ctx.line(&format!("ad.decx {}", hexf(&v)), &dec_obs(&v));
+    }
+    let user_flags: Vec<u8> = (0..16u8).collect(); // masks over the named flags UP, UV, BE, BS
     let id_lens: Vec<usize> = if ctx.thorough { vec![0, 1, 15, 16, 17, 64, 255, 256, 257, 1023, 65534, 65535, 65536, 70000] } else { vec![0, 1, 16, 255, 256, 65535, 65536] };
     let mut encs: Vec<Vec<u8>> = vec![];
     // every id length x with/without extensions; all 16 user-flag combinations; counters
